@@ -4,8 +4,9 @@
 set -u
 ID=$1; WT=$2; NAME=${3:-$ID}
 OUT=/verif/seeded/$NAME; mkdir -p $OUT
-cp $WT/_seed/patch.diff $WT/_seed/demo.py $OUT/ 2>/dev/null; cp $WT/_seed/notes.md $OUT/ 2>/dev/null
-sed -i "s#$WT#/tmp/sv_$NAME#g" $OUT/demo.py
+if [ -d $WT/_seed ]; then SRC=$WT/_seed; ORIG=$WT; else SRC=$WT; ORIG=$(cat $WT/orig_wt); fi   # agent worktree, or a stashed seeded/_pending/<ID>
+cp $SRC/patch.diff $SRC/demo.py $OUT/ 2>/dev/null; cp $SRC/notes.md $OUT/ 2>/dev/null
+sed -i "s#$ORIG#/tmp/sv_$NAME#g" $OUT/demo.py
 SV=/tmp/sv_$NAME
 git -C /repo worktree add -q --detach $SV HEAD || exit 2
 cd $SV
@@ -31,5 +32,5 @@ json.dump({"property":"$ID","name":"$NAME","patch_applies":$AP==0,"demo_exit_cle
 PY
 rm -f $OUT/apply_err.txt
 echo "$NAME: apply=$AP demo_clean=$D0 demo_patched=$D1 tests='$T' check_exit=$CK"; grep -h "VIOLATION" $OUT/check_output.txt | head -3
-git -C /repo worktree remove --force $WT 2>/dev/null
+if [ -d $WT/_seed ]; then git -C /repo worktree remove --force $WT 2>/dev/null; else rm -rf $WT; fi
 git -C /repo status --short | grep -v egg-info
